@@ -1497,3 +1497,53 @@ def rule_value_slot_never_empty(ctx, rep: Report, rid="W9"):
                         f"{ci.mod.rel}:{call.lineno}")
     if n < 1:
         raise AnalysisError(f"{rep.prop}/{rid}: no `= <value>;` template found in the pybind emitter")
+
+
+def rule_dispatch_branches_contribute(ctx, rep: Report, rid="A10", wrapper="PybindWrapper", method="wrap_namespace"):
+    """Every kind of element that the content loop(s) of wrap_namespace single out with an isinstance test contributes to
+    what the function returns: the branch adds, to one of the returned accumulators, a value computed from the element
+    (directly or through locals of the branch).  A branch whose `+=` was lost still runs the emitter and then throws the
+    text away - the #include lines of a namespace, the bindings of a nested namespace, ... vanish without an error."""
+    prog = ctx.prog
+    ci = prog.cls(wrapper)
+    fn = prog.method(wrapper, method)
+    np_ = func_params(fn)[1]
+    rets = [r.value for r in walk_no_nested(fn) if isinstance(r, ast.Return) and r.value is not None]
+    returned = {x.id for r in rets for x in ast.walk(r) if isinstance(x, ast.Name)}
+    n = 0
+    for loop in [l for l in walk_no_nested(fn) if isinstance(l, ast.For) and isinstance(l.target, ast.Name) and unparse(l.iter) == f"{np_}.content"]:
+        v = loop.target.id
+        for st in loop.body:
+            cur = st
+            while isinstance(cur, ast.If):
+                t = cur.test
+                if isinstance(t, ast.Call) and unparse(t.func) == "isinstance" and unparse(t.args[0]) == v:
+                    kind = unparse(t.args[1]).split(".")[-1]
+                    # names that depend on the element inside this branch
+                    dep = {v}
+                    changed = True
+                    body_nodes = [x for b in cur.body for x in ast.walk(b)]
+                    while changed:
+                        changed = False
+                        for x in body_nodes:
+                            tg = None
+                            if isinstance(x, ast.Assign):
+                                tg = [y.id for t_ in x.targets for y in ast.walk(t_) if isinstance(y, ast.Name)]
+                                val = x.value
+                            elif isinstance(x, ast.AugAssign) and isinstance(x.target, ast.Name) and x.target.id not in returned:
+                                tg, val = [x.target.id], x.value
+                            if tg and any(isinstance(y, ast.Name) and y.id in dep for y in ast.walk(val)):
+                                for nm in tg:
+                                    if nm not in dep:
+                                        dep.add(nm)
+                                        changed = True
+                    contrib = [x for x in body_nodes if isinstance(x, ast.AugAssign) and isinstance(x.target, ast.Name) and x.target.id in returned
+                               and any(isinstance(y, ast.Name) and y.id in dep for y in ast.walk(x.value))]
+                    n += 1
+                    rep.add(rid, f"{method}:loop@{'above' if enclosing(loop, ast.If) is not None and loop in getattr(enclosing(loop, ast.If), 'body', []) else 'below'}"
+                                 f":{kind}:the branch adds what it produced to the result", bool(contrib),
+                            f"the branch for {kind} elements computes text but adds nothing that depends on the element to {sorted(returned)}: the element "
+                            f"is parsed, accepted and silently left out of the generated module", f"{ci.mod.rel}:{cur.lineno}")
+                cur = cur.orelse[0] if len(cur.orelse) == 1 and isinstance(cur.orelse[0], ast.If) else None
+    if n < 6:
+        raise AnalysisError(f"{rep.prop}/{rid}: only {n} dispatch branches found in {wrapper}.{method}")
